@@ -380,11 +380,18 @@ struct Harness {
   std::map<std::string, std::string> params;
   RelaxedLong curCase;
   std::string curParams;
+  // what the monitor thread may read (the harness writes hangKey/curParams without synchronisation)
+  std::mutex snapMu;
+  std::string hangKeySnap = "hang", paramsSnap;
   double caseT0 = 0;
   std::atomic<bool> monitorStop{false};
   std::thread monitor;
   bool hangMonitorEnabled = true;
+#if VERIF_TSAN
+  unsigned hangWindow     = 80; // samples of 0.5 s; the sanitizer runtime itself can hold every thread for a while
+#else
   unsigned hangWindow     = 20; // samples of 0.5 s
+#endif
   long nViolations        = 0;
   int mpiRank             = 0;
 
@@ -473,6 +480,11 @@ struct Harness {
   void begin(long k, const std::string& paramsJson) {
     curCase.store(k, std::memory_order_relaxed);
     curParams = paramsJson;
+    {
+      std::lock_guard<std::mutex> lg(snapMu);
+      hangKeySnap = hangKey;
+      paramsSnap  = paramsJson;
+    }
     caseT0    = now_s();
     line(J().kv("ev", "begin").kv("case", k).raw("params", paramsJson).str());
   }
@@ -635,10 +647,20 @@ struct Harness {
     J d;
     d.kv("kind", "HANG: no progress; every thread blocked or spinning for the whole window");
     d.kv("window_s", hangWindow * 0.5);
+#if !VERIF_TSAN
     if (hangDetail)
       d.kv("detail", hangDetail());
+#endif
     d.raw("threads", thr);
-    violation(hangKey, d.str());
+    std::string key, params;
+    {
+      std::lock_guard<std::mutex> lg(snapMu);
+      key    = hangKeySnap;
+      params = paramsSnap;
+    }
+    ++nViolations;
+    line(J().kv("ev", "violation").kv("case", curCase.load(std::memory_order_relaxed)).kv("key", key)
+             .raw("params", params.empty() ? "{}" : params).raw("detail", d.str()).str());
     line(J().kv("ev", "hang_exit").kv("case", curCase.load(std::memory_order_relaxed)).str());
     if (out && out != stdout)
       fflush(out);
@@ -682,7 +704,9 @@ inline void clear_payloads() { g_npayload.store(0); }
 #if VERIF_TSAN && defined(VERIF_MAIN_TU)
 // called by the TSan runtime for every report (in the reporting thread);
 // strong definition, compiled into the TU that defines VERIF_MAIN_TU
-extern "C" void __tsan_on_report(void* report) {
+// Not instrumented and free of intercepted libc calls: a race detected inside this callback would re-enter the report
+// machinery under its own locks and dead-lock the process.
+extern "C" __attribute__((no_sanitize("thread"))) void __tsan_on_report(void* report) {
   const char* desc = nullptr;
   int count, stack_count, mop_count = 0, loc_count, mutex_count, thread_count, utc;
   void* sleep_trace[1];
@@ -699,7 +723,9 @@ extern "C" void __tsan_on_report(void* report) {
     for (unsigned k = 0; k < np && k < 64; ++k)
       if ((uintptr_t)addr >= verif::g_payload[k].lo && (uintptr_t)addr < verif::g_payload[k].hi) {
         payload = true;
-        strncpy(verif::g_tsanLastPayload, verif::g_payload[k].name, 63);
+        for (unsigned c = 0; c < 63; ++c)
+          if (!(verif::g_tsanLastPayload[c] = verif::g_payload[k].name[c]))
+            break;
       }
     sig = sig * 1000003u + (uintptr_t)trace[0];
   }
